@@ -252,6 +252,13 @@ func c17Levels(tier string) []core.Level {
 			}
 		}},
 	}
+	lv = append(lv, core.Level{Name: "run-time error (3 kinds) inside an expression position of every tag kind: with-hashes, template names, conditions, sequences, arguments, captures, macro bodies", Gen: func(emit func(core.Case)) {
+		for i := range c17ArgForms {
+			for k := 0; k < 3; k++ {
+				emit(core.Case{Fam: "rtarg", N: []int{i, k}})
+			}
+		}
+	}})
 	if thorough(tier) {
 		lv = append(lv, core.Level{Name: "pairs: writer fails at k and loader fails at j", Gen: func(emit func(core.Case)) {
 			prep()
@@ -267,10 +274,88 @@ func c17Levels(tier string) []core.Level {
 	return lv
 }
 
+// c17ArgForms: a run-time error placed inside an expression position of every tag kind (ERR is replaced by
+// a call of an undefined function; the probe run uses the marker function instead)
+var c17ArgForms = []string{
+	"a{% include 'inc' with {'a': ERR} %}b",
+	"a{% include 'inc' with ERR %}b",
+	"a{% include 'inc' with ERR only %}b",
+	"a{% include ERR %}b",
+	"a{% embed 'base2' with {'a': ERR} %}{% endembed %}b",
+	"a{% embed 'base2' with ERR only %}{% block a %}o{% endblock %}{% endembed %}b",
+	"{% extends ERR %}{% block a %}x{% endblock %}",
+	"{% extends 'base2' %}{% use ERR %}",
+	"a{% import ERR as mm %}b",
+	"a{% from ERR import m %}b",
+	"a{% set x = ERR %}b{{ x }}",
+	"a{% set x = [1, ERR] %}b",
+	"a{% set x = {'k': ERR} %}b",
+	"a{% do ERR %}b",
+	"a{% if ERR %}y{% else %}n{% endif %}b",
+	"a{% if false %}y{% elseif ERR %}e{% endif %}b",
+	"a{% for v in ERR %}x{% endfor %}b",
+	"a{% for v in [1, 2] if ERR %}x{% endfor %}b",
+	"a{{ f(ERR) }}b",
+	"a{{ a|wrap(ERR) }}b",
+	"a{{ ERR|up }}b",
+	"a{{ a is divisible by(ERR) }}b",
+	"a{{ a ? ERR : 1 }}b",
+	"a{{ \"x#{ERR}y\" }}b",
+	"a{{ arr[ERR] }}b",
+	"a{{ obj.Add(ERR, 1) }}b",
+	"{% macro m(x) %}<{{ x }}>{% endmacro %}a{{ _self.m(ERR) }}b",
+	"{% import 'macros' as mm %}a{{ mm.m(ERR) }}b",
+	"{% macro m(x) %}<{{ ERR }}>{% endmacro %}a{{ _self.m(1) }}b",
+	"{% macro m(x) %}<{% include 'inc' with {'a': ERR} %}>{% endmacro %}a{{ _self.m(1) }}b",
+	"a{% filter up %}x{{ ERR }}{% endfilter %}b",
+	"a{% set c %}x{{ ERR }}{% endset %}b{{ c }}",
+	"a{% block b %}{{ block(ERR) }}{% endblock %}b",
+	"a{{ a + ERR * 2 }}b{{ not ERR }}",
+	"a{{ ERR .. 3 }}b",
+}
+
+func c17RunArg(c core.Case) core.Result {
+	form := c17ArgForms[c.N[0]]
+	errExpr := []string{"nofunc()", "(1 % 0)", "(a|nofilter)"}[c.N[1]]
+	p := c17Exec(strings.ReplaceAll(form, "ERR", "mark()"), false, 0, 0, 0)
+	if p.pan != "" {
+		return core.Skipped("probe-panics")
+	}
+	mut := strings.ReplaceAll(form, "ERR", errExpr)
+	r := c17Exec(mut, false, 0, 0, 0)
+	if r.pan != "" {
+		return core.Violation("panic", fmt.Sprintf("%q panicked: %s", mut, r.pan))
+	}
+	if p.marked == 0 {
+		r := core.Okay(false, "not-executed")
+		r.Cnt = map[string]int64{"rtarg_position_not_evaluated": 1}
+		return r
+	}
+	if r.err == nil {
+		return core.Violation("error-swallowed", fmt.Sprintf("%q: the failing expression is evaluated (the marker in its place is called %d times) but Execute returned nil and wrote %q", mut, p.marked, r.w.accepted.String()))
+	}
+	if p.err == nil && !strings.HasPrefix(p.w.accepted.String(), r.w.accepted.String()) {
+		return core.Violation("not-a-prefix", fmt.Sprintf("%q wrote %q, not a prefix of %q", mut, r.w.accepted.String(), p.w.accepted.String()))
+	}
+	s := c17Exec(mut, true, 0, 0, 0)
+	if s.pan != "" {
+		return core.Violation("panic", "ExecuteSafe panicked: "+s.pan)
+	}
+	if s.err == nil || s.w.calls != 0 {
+		return core.Violation("safe-wrote-on-failure", fmt.Sprintf("ExecuteSafe of %q: err=%v, wrote %q", mut, s.err, s.w.chunks))
+	}
+	res := core.Okay(true, r.w.accepted.String())
+	res.Cnt = map[string]int64{"rtarg_error_returned": 1}
+	return res
+}
+
 var c17RtForms = []string{"{{ a|nofilter }}", "{{ nofunc() }}", "{% for qq in 5 %}{% endfor %}"}
 var c17MarkForm = "{{ mark() }}"
 
 func c17Run(c core.Case) core.Result {
+	if c.Fam == "rtarg" {
+		return c17RunArg(c)
+	}
 	ref := c17Exec(c.Src, false, 0, 0, 0)
 	if ref.pan != "" {
 		return core.Skipped("fault-free-run-panics")
@@ -411,7 +496,7 @@ func init() {
 		ID:       "C17",
 		Category: "fault_enumeration",
 		Rule: "for every template of a corpus (text/prints at every nesting, filter sections, captures, includes, embeds, inheritance, macros, broken and missing includes; tag corpus also nested in a for and a block body): the fault-free run records W writes and L loads; then every single fault: " +
-			"writer failing at write k=1..W in 3 flavours (persistent zero-byte, partial write, fails once then accepts: exposes writes after a failure), loader failing at load j=1..L, a run-time error of 3 kinds injected at every position outside delimiters (a probe run with a marker function tells whether the position is executed); thorough adds all (k, j) pairs. " +
+			"writer failing at write k=1..W in 3 flavours (persistent zero-byte, partial write, fails once then accepts: exposes writes after a failure), loader failing at load j=1..L, a run-time error of 3 kinds injected at every position outside delimiters and inside an expression position of every tag kind (with-hash, template name, condition, sequence, argument, capture, macro body; a probe run with a marker function tells whether the position is executed); thorough adds all (k, j) pairs. " +
 			"Oracle: Execute returns an error; accepted bytes are a prefix of the fault-free output; no Write after a failed one; ExecuteSafe writes nothing when rendering fails and is byte-identical to Execute otherwise. distinct = distinct (template, fault plan); non-trivial = the fault point is reached",
 		Assumptions: []string{"the corpus is finite (about 150 templates); faults are single (pairs in the thorough tier)"},
 		Levels:      c17Levels,
